@@ -141,6 +141,9 @@ func (e *Engine) intrinsic(fn *ssa.Function, args []Val) (Val, bool) {
 		return bOr(args[0].(Bool), args[1].(Bool)), true
 	case "vImplies":
 		return bOr(bNot(args[0].(Bool)), args[1].(Bool)), true
+	case "vMutexHeld":
+		k := e.ghostKey(args[0].(Ptr))
+		return Bool{C: e.locks != nil && e.locks[k] != 0}, true
 	case "vSymbolic":
 		return Bool{C: !e.concrete}, true
 	case "vOpaqueBytes":
